@@ -80,3 +80,38 @@ func (vc *VC) containmentAxioms() []string {
 	}
 	return out
 }
+
+// mapValFacts: well-typedness facts for a value looked up in map object m of heap h.
+func (vc *VC) mapValFacts(vals []string, mt *types.Map, kl Leaf, h Heap, m string) []string {
+	var out []string
+	for i, l := range vc.L.Leaves(mt.Elem()) {
+		if i >= len(vals) {
+			break
+		}
+		out = append(out, vc.rangeFact(vals[i], l, h))
+		key := "MV_" + sortTag[kl.Sort] + "_" + sortTag[l.Sort]
+		name, ok := h.M[key]
+		if !ok {
+			continue
+		}
+		b, ok := vc.root().heapBound[name]
+		if !ok || b == h.Alloc {
+			continue
+		}
+		var ref string
+		switch l.Sort {
+		case SPtr:
+			ref = "(p_obj " + vals[i] + ")"
+		case SSlice:
+			ref = "(s_obj " + vals[i] + ")"
+		case SIface:
+			ref = "(p_obj (i_pl " + vals[i] + "))"
+		case SRef:
+			ref = vals[i]
+		default:
+			continue
+		}
+		out = append(out, implies("(<= "+m+" "+b+")", "(<= "+ref+" "+b+")"))
+	}
+	return out
+}
